@@ -191,8 +191,10 @@ Proof. induction q; simpl; auto. Qed.
 
 (* ------------------------------------------------------------------ leaves *)
 Lemma tg_neutral_first : forall r (q : list tg_msg),
-  forallb tg_neutral (match q with m :: _ => [ONack (tm_id m) r] | [] => [] end) = true.
-Proof. destruct q; reflexivity. Qed.
+  forallb tg_neutral (match q with
+                      | m :: _ => if tm_con m then [] else [ONack (tm_id m) r]
+                      | [] => [] end) = true.
+Proof. destruct q as [|m q]; [reflexivity|]. destruct (tm_con m); reflexivity. Qed.
 
 Lemma tg_disconnected_outs_neutral : forall s r s' o,
   ts_proto s = TgDtls -> tg_disconnected s r = (s', o) -> forallb tg_neutral o = true.
@@ -200,7 +202,7 @@ Proof.
   intros s r s' o Hp H. unfold tg_disconnected, tg_tls_close in H. simpl in H. rewrite Hp in H.
   destruct (ts_tls s); inversion H; subst; clear H;
     repeat rewrite forallb_app; rewrite tg_neutral_first; repeat rewrite tg_neutral_map_nack;
-    destruct (match _ ++ _ with [] => false | _ => true end); reflexivity.
+    match goal with |- context [if ?b then _ else _] => destruct b end; reflexivity.
 Qed.
 
 Lemma tg_disconnected_post : forall seen s r s' o,
